@@ -13,7 +13,7 @@ from pytezos.crypto.encoding import base58_encode
 from pytezos.crypto.key import blake2b_32
 from pytezos.michelson.tags import prim_tags
 
-prim_int = {v[0]: k for k, v in prim_tags.items()}
+prim_int = {v[0]: k for k, v in prim_tags.items() if v != b'\xee'}  # 0xee marks non-protocol (TZT / Jupyter) words
 
 
 def get_tag(args_len: int, annots_len: int) -> bytes:
@@ -64,6 +64,9 @@ def unforge_int(data: bytes) -> (int, int):  # type: ignore
 
     while data[length - 1] & 0b10000000 != 0:
         length += 1
+
+    if length > 1 and data[length - 1] == 0:
+        raise ValueError('non-minimal integer encoding (trailing zero byte)')
 
     for i in range(length - 1, 0, -1):
         value <<= 7
